@@ -933,6 +933,77 @@ def hsServer13 (C : Crypto) (s : Settings) (ownChain : Chain) (configs : List Ps
       else .done { serverCertChain := ownChain, clientCertChain := ch,
                    pskIdentity := sel.map (fun p => p.2.identity) }
 
+/-! ### TLS 1.3 session tickets as PSK identities (the part of the PSK loop that `pskSelect` omits) -/
+
+/-- what `_tryDecrypt` returns for an identity that decrypts under one of `settings.ticketKeys` -/
+structure Ticket where
+  psk : Bytes                 -- `calc_res_binder_psk(identity, ticket.master_secret, …)`
+  hash : HashName             -- PRF hash of the ticket's cipher suite
+  version : Nat               -- `ticket.protocol_version` (minor)
+  creation : Nat              -- `ticket.creation_time`
+  clientChain : Chain         -- `ticket.client_cert_chain`
+  deriving Repr
+
+structure PskChoice where
+  index : Nat
+  identity : Bytes
+  external : Bool
+  resumedChain : Chain        -- `resumed_client_cert_chain`
+  deriving Repr
+
+/-- The whole loop over `psks.identities`: external PSKs first (`settings.pskConfigs`), otherwise the
+    identity is tried as an encrypted ticket (`dec` = `_tryDecrypt`).  A ticket of another protocol
+    version, an expired one (`creation + ticketLifetime < now`) or one for the other PRF hash is
+    skipped; the first remaining candidate is selected, the client chain of the ticket is taken
+    over, and its binder verified (resumption binder: `external = False`); a bad binder aborts. -/
+def pskSelectT (C : Crypto) (configs : List PskConfig) (dec : Bytes → Option Ticket) (lifetime now ver : Nat)
+    (prf : HashName) (truncated : Transcript) (lastExtIsPsk : Bool) :
+    List (Bytes × Bytes) → Nat → Except Reject (Option PskChoice)
+  | [], _ => .ok none
+  | (ident, binder) :: rest, i =>
+    match configs.find? (fun c => c.identity = ident) with
+    | some cfg =>
+      if cfg.hash ≠ prf then pskSelectT C configs dec lifetime now ver prf truncated lastExtIsPsk rest (i + 1)
+      else if lastExtIsPsk = false then .error (.alert AD.illegalParameter)
+      else if calcBinder C prf cfg.secret truncated true = binder then
+        .ok (some { index := i, identity := ident, external := true, resumedChain := [] })
+      else .error (.alert AD.illegalParameter)
+    | none =>
+      match dec ident with
+      | none => pskSelectT C configs dec lifetime now ver prf truncated lastExtIsPsk rest (i + 1)
+      | some tk =>
+        if ver ≠ tk.version then pskSelectT C configs dec lifetime now ver prf truncated lastExtIsPsk rest (i + 1)
+        else if tk.creation + lifetime < now then
+          pskSelectT C configs dec lifetime now ver prf truncated lastExtIsPsk rest (i + 1)
+        else if tk.hash ≠ prf then pskSelectT C configs dec lifetime now ver prf truncated lastExtIsPsk rest (i + 1)
+        else if lastExtIsPsk = false then .error (.alert AD.illegalParameter)
+        else if calcBinder C prf tk.psk truncated false = binder then
+          .ok (some { index := i, identity := ident, external := false, resumedChain := tk.clientChain })
+        else .error (.alert AD.illegalParameter)
+
+/-- TLS 1.3 server with external PSKs and tickets: as `hsServer13`, and at the end
+    `if not client_cert_chain and resumed_client_cert_chain: client_cert_chain = resumed…`. -/
+def hsServer13T (C : Crypto) (s : Settings) (ownChain : Chain) (configs : List PskConfig)
+    (dec : Bytes → Option Ticket) (lifetime now : Nat) (prf : HashName) (truncatedCH : Transcript)
+    (lastExtIsPsk : Bool) (offeredPsks : List (Bytes × Bytes)) (reqCert : Bool) (offered : List SchemeId)
+    (clientChain : Chain) (tCV : Transcript) (ownScheme : Option SchemeId) (cv : CertVerify)
+    (clHsSecret : Bytes) (tFin : Transcript) (clientFin : Bytes) : Outcome :=
+  match pskSelectT C configs dec lifetime now 4 prf truncatedCH lastExtIsPsk offeredPsks 0 with
+  | .error e => .fail none e
+  | .ok sel =>
+    let cvRes : Except Reject Chain :=
+      match sel with
+      | some _ => .ok []
+      | none => if reqCert then verifyCV13Server C s offered clientChain tCV prf ownScheme cv else .ok []
+    match cvRes with
+    | .error e => .fail none e
+    | .ok ch =>
+      if clientFin ≠ finished13 C prf clHsSecret tFin then .fail none (.alert AD.decryptError)
+      else
+        let resumed : Chain := match sel with | some c => c.resumedChain | none => []
+        .done { serverCertChain := ownChain, clientCertChain := if ch = [] then resumed else ch,
+                pskIdentity := sel.map (fun c => c.identity) }
+
 /-! ### `_handshakeWrapperAsync` with a Checker -/
 
 /-- `Checker(x509Fingerprint=fp)`: `chain.getFingerprint()` is the fingerprint of the END-ENTITY
